@@ -23,7 +23,8 @@ import (
 // error comes back. See DESIGN.md §4 C02.
 
 var fsKinds = []string{"undefined", "null", "boolean", "number", "string", "object", "array", "function", "regexp", "date", "error", "trap", "trapfn", "negative", "big", "nan",
-	"regexp_neg", "error_child", "proto_null", "date_invalid", "string_obj", "args", "frozen_array", "sparse", "bound", "empty_string", "infinity", "pos_infinity", "max_int", "min_int", "tiny"}
+	"regexp_neg", "error_child", "proto_null", "date_invalid", "string_obj", "args", "frozen_array", "sparse", "bound", "empty_string", "infinity", "pos_infinity", "max_int", "min_int", "tiny",
+	"hs_group", "hs_class", "hs_backslash", "hs_quant", "hs_percent", "hs_surrogate", "hs_long", "hs_json"}
 
 const fsPreludeJS = `
 var __n=0, __k=0, __mode='throw';
@@ -70,6 +71,14 @@ function __mk(kind){
   case 'max_int': return 9223372036854775807;
   case 'min_int': return -9223372036854775808;
   case 'tiny': return 5e-324;
+  case 'hs_group': return 'a(b(?';
+  case 'hs_class': return '[z-a';
+  case 'hs_backslash': return 'x\\';
+  case 'hs_quant': return 'a{2,1}*+?';
+  case 'hs_percent': return '%E0%A4%A';
+  case 'hs_surrogate': return '\ud800x';
+  case 'hs_long': return new Array(300).join('ab');
+  case 'hs_json': return '{"a":[1,{"b":';
   case 'trap': return __mkTrap(false);
   case 'trapfn': return __mkTrap(true);
   }
@@ -478,14 +487,22 @@ func (e fsEngine) Exec(ci interface{}, st *Stats) (*Violation, interface{}, bool
 	if c.Fault == "prop" && c.Prog != "" {
 		r := newFSRuntime()
 		st.Runs++
-		_, _, panicked, pv := protectedRun(r.vm, c.Prog)
+		val, err, panicked, pv := protectedRun(r.vm, c.Prog)
 		if panicked {
 			return viol("C02", "go_panic_escaped", "`%s`: Run panicked with %T: %v", c.Prog, pv, clip(fmt.Sprint(pv))), c, true
+		}
+		if err == nil {
+			if bad := valueAccessors(r.vm, val); bad != "" {
+				return viol("C02", "go_panic_escaped", "`%s`: %s", c.Prog, bad), c, true
+			}
 		}
 		return nil, nil, true
 	}
 	if c.Fault == "propsweep" {
 		return execPropSweep(c, st)
+	}
+	if c.Fault == "history" {
+		return execHistory(c, st)
 	}
 	if c.Fault == "apisweep" {
 		// uncaught throw of a value of this kind, and the Value/Object accessors
@@ -610,6 +627,65 @@ func (e fsEngine) Exec(ci interface{}, st *Stats) (*Violation, interface{}, bool
 
 var collectMode bool
 
+// short operation histories on one array / object: receiver states that no
+// single call creates (non-configurable elements, rolled-back length, ...)
+var histOps = []string{
+	"Object.defineProperty(a,1,{value:7,configurable:false})",
+	"Object.defineProperty(a,'length',{writable:false})",
+	"a.length=1",
+	"a.length=0",
+	"a.length=5",
+	"a.push(9)",
+	"a.pop()",
+	"a.shift()",
+	"a.unshift(0)",
+	"a.splice(1,1)",
+	"a.sort()",
+	"a.reverse()",
+	"delete a[1]",
+	"a[7]=1",
+	"Object.freeze(a)",
+	"Object.preventExtensions(a)",
+	"a.forEach(function(x){})",
+	"a.concat(a).join()",
+	"Object.defineProperty(a,0,{get:function(){return 1},configurable:true})",
+	"JSON.stringify(a)",
+}
+
+func execHistory(c *FSCase, st *Stats) (*Violation, interface{}, bool) {
+	// c.From encodes the first operation; all continuations of length 2 are swept
+	n := len(histOps)
+	for j := 0; j < n; j++ {
+		for k := 0; k < n; k++ {
+			for _, recv := range []string{"[1,2,3]", "{0:1,1:2,length:2}"} {
+				src := "(function(){var a=" + recv + ";try{" + histOps[c.From] + "}catch(e1){}try{" + histOps[j] + "}catch(e2){}" + histOps[k] + ";return a})()"
+				st.Runs++
+				st.Fault("history_step")
+				r := newFSRuntime()
+				val, err, panicked, pv := protectedRun(r.vm, src)
+				bad := ""
+				if panicked {
+					bad = fmt.Sprintf("Run panicked with %T: %v", pv, clip(fmt.Sprint(pv)))
+				} else if err == nil {
+					bad = valueAccessors(r.vm, val)
+				}
+				if bad != "" {
+					x := viol("C02", "go_panic_escaped", "`%s`: %s", src, bad)
+					x.Key = "history " + src
+					if kf := isKnown(x); kf != nil {
+						st.Known[kf.Property+" "+kf.Key]++
+						continue
+					}
+					return x, &FSCase{Engine: "faultsweep", Prog: src, Fault: "prop"}, true
+				}
+			}
+		}
+	}
+	st.NonTrivial++
+	st.Sig(hashStr("hist", histOps[c.From]))
+	return nil, nil, true
+}
+
 // Enumerate lists the finite case space: one case per slice of the surface.
 func (fsEngine) Enumerate(tier string) []interface{} {
 	width := 4
@@ -617,11 +693,14 @@ func (fsEngine) Enumerate(tier string) []interface{} {
 	seed, _ := strconv.Atoi(os.Getenv("VERIF_SEED"))
 	for i, from := 0, 0; from < len(builtinPaths); i, from = i+1, from+width {
 		// quick: all kind pairs only for a seed-selected sixth of the surface
-		out = append(out, &FSCase{Engine: "faultsweep", From: from, To: from + width, Pairs: tier == "thorough" || (i+seed)%6 == 0})
+		out = append(out, &FSCase{Engine: "faultsweep", From: from, To: from + width, Pairs: tier == "thorough" || (i+seed)%10 == 0})
 	}
 	for _, k := range fsKinds {
 		out = append(out, &FSCase{Engine: "faultsweep", Fault: "propsweep", Recv: k})
 		out = append(out, &FSCase{Engine: "faultsweep", Fault: "apisweep", Recv: k})
+	}
+	for i := range histOps {
+		out = append(out, &FSCase{Engine: "faultsweep", Fault: "history", From: i})
 	}
 	out = append(out, &FSCase{Engine: "faultsweep", Fault: "oomprobe", Path: "Array.prototype.toLocaleString", Recv: "neg_length", Args: []string{}})
 	out = append(out, &FSCase{Engine: "faultsweep", Fault: "oomprobe", Path: "Array.prototype.join", Recv: "neg_length", Args: []string{}})
